@@ -14,7 +14,7 @@ import random
 
 from cerberus import Validator, SchemaError
 
-from .. import codec, real, cases, ports, schemas, rewrite
+from .. import codec, real, cases, ports, schemas, rewrite, families
 from ..lean import Driver
 
 
@@ -65,6 +65,68 @@ def one(ctx, drv, i, prof, case):
                 ctx.fail('C15 oracle: verdict / errors / processed document differ between shorthand and canonical form '
                          '(normalize=%s)' % normalize, jcase)
                 return
+    # shorthand definitions that live in a registry mean their canonical form as well, however they got there
+    if i % 2 == 0:
+        from cerberus import schema_registry, rules_set_registry
+        from cerberus.schema import RulesSetRegistry, SchemaRegistry
+        # references are placed on the canonical schema (the rewriting tool classifies positions by rule names);
+        # then every definition and what is left inline are rewritten into shorthand form
+        refschema, rs, ss, refd = rewrite.to_references(rng, case['schema'], p=0.5)
+        n_short = 0
+        if refd:
+            rs2 = {}
+            for k, v in rs.items():
+                w, ap = rewrite.to_shorthand(rng, {0: v}, p=0.6) if isinstance(v, dict) else ({0: v}, [])
+                rs2[k] = w[0]
+                n_short += len(ap)
+            ss2 = {}
+            for k, v in ss.items():
+                w, ap = rewrite.to_shorthand(rng, v, p=0.6) if isinstance(v, dict) else (v, [])
+                ss2[k] = w
+                n_short += len(ap)
+            rs, ss = rs2, ss2
+            refschema, ap = rewrite.to_shorthand(rng, refschema, p=0.4)
+            n_short += len(ap)
+        if refd and n_short:
+            how = rng.choice(['add', 'extend', 'constructor'])
+            real.clear_global_state()
+            cfg = copy.deepcopy(case.get('cfg', {}))
+            try:
+                if how == 'add':
+                    for k, v in rs.items():
+                        rules_set_registry.add(k, copy.deepcopy(v))
+                    for k, v in ss.items():
+                        schema_registry.add(k, copy.deepcopy(v))
+                elif how == 'extend':
+                    rules_set_registry.extend(copy.deepcopy(rs))
+                    schema_registry.extend(copy.deepcopy(ss))
+                else:
+                    cfg['rules_set_registry'] = RulesSetRegistry(copy.deepcopy(rs))
+                    cfg['schema_registry'] = SchemaRegistry(copy.deepcopy(ss))
+                jc = dict(jcase, referenced=codec.enc_val(refschema), rules_sets=codec.enc_val(rs), schemas=codec.enc_val(ss),
+                          registry_filled_by=how)
+                # known finding F15d: shorthand beside a reference-defined field in one mapping sub-schema
+                f15d = 'shorthand_beside_reference_field' if (mixed_mapping(refschema) or mixed_mapping(rs) or mixed_mapping(ss)) else None
+                try:
+                    rv = real.cls_of(case)(copy.deepcopy(refschema), **cfg)
+                except Exception as e:
+                    ctx.fail('C15 oracle: shorthand definitions put into a registry by %s(): the referencing schema is rejected (%s)'
+                             % (how, type(e).__name__), jc, detail=str(e)[:300], classifier=f15d)
+                    return
+                a = real.run_validate(case, normalize=True)
+                try:
+                    r = rv.validate(copy.deepcopy(case['doc']), update=case.get('update', False))
+                    got = (r, codec.canon_errs(rv._errors, 1), codec.canon_val(rv.document))
+                except Exception as e:
+                    got = ('raised', type(e).__name__)
+                want = (a.ret, codec.canon_errs(a.errors, 1), codec.canon_val(a.document)) if a.exc is None else ('raised', type(a.exc).__name__)
+                if got != want:
+                    ctx.fail('C15 oracle: shorthand definitions put into a registry by %s() do not mean their canonical form' % how,
+                             jc, detail={'canonical inline': repr(want)[:600], 'referenced shorthand': repr(got)[:600]}, classifier=f15d)
+                    return
+                ctx.dist('registry_filled_by', how)
+            finally:
+                real.clear_global_state()
     # port
     req = {'port': 'accept', 'schema': codec.enc_val(short), 'env': {}}
     ct = schemas.cls_tables(real.cls_of(case))
@@ -90,12 +152,35 @@ KNOWN_WITNESSES = [
     {'schema': {'a': {'type': 'list', 'schema': {'valuesrules': {'type': 'integer'}}}},
      'shorthand': {'a': {'type': 'list', 'schema': {'valueschema': {'type': 'integer'}}}},
      'doc': {'a': [{'x': 1}]}, 'classifier': 'deprecated_name_in_mapping_like_list_schema'},
+    # F15d: a mapping sub-schema one of whose fields is defined by a rules-set reference (a string) is taken for a
+    # list-schema rule set; shorthand / deprecated names in its other fields are not expanded
+    {'schema': {'d': {'type': 'dict', 'schema': {'a': 'rs', 'c': {'check_with': families.k_pass}}}},
+     'shorthand': {'d': {'type': 'dict', 'schema': {'a': 'rs', 'c': {'validator': families.k_pass}}}},
+     'rules_sets': {'rs': {'type': 'integer'}}, 'doc': {'d': {'a': 1, 'c': 2}},
+     'classifier': 'shorthand_beside_reference_field',
+     'what': 'a deprecated / shorthand rule name in a mapping sub-schema that also has a field defined by reference is not expanded'},
 ]
 
 
+def mixed_mapping(v):
+    """is there a `schema` constraint that is a mapping with both a string (reference) and a mapping among its values?"""
+    if isinstance(v, dict):
+        sub = v.get('schema')
+        if isinstance(sub, dict) and any(isinstance(x, str) for x in sub.values()) and any(isinstance(x, dict) for x in sub.values()):
+            return True
+        return any(mixed_mapping(x) for x in v.values())
+    if isinstance(v, (list, tuple)):
+        return any(mixed_mapping(x) for x in v)
+    return False
+
+
 def known_witnesses(ctx):
+    from cerberus import rules_set_registry
     for w in KNOWN_WITNESSES:
         Validator.clear_caches()
+        real.clear_global_state()
+        for k, v in w.get('rules_sets', {}).items():
+            rules_set_registry.add(k, copy.deepcopy(v))
         try:
             cv = Validator(copy.deepcopy(w['schema']))
             sv = Validator(copy.deepcopy(w['shorthand']))
@@ -105,10 +190,12 @@ def known_witnesses(ctx):
                 same = ra == rb
         except Exception:
             same = False
+        finally:
+            real.clear_global_state()
         if not same:
-            ctx.fail('C15 oracle: deprecated rule name inside a list-schema rule set whose constraints are all mappings '
-                     'is not treated like its canonical form', {'schema': repr(w['schema']), 'shorthand': repr(w['shorthand'])},
-                     classifier=w['classifier'])
+            ctx.fail('C15 oracle: %s' % w.get('what', 'deprecated rule name inside a list-schema rule set whose constraints are all '
+                                              'mappings is not treated like its canonical form'),
+                     {'schema': repr(w['schema']), 'shorthand': repr(w['shorthand'])}, classifier=w['classifier'])
 
 
 def run(ctx, n):
